@@ -5,7 +5,8 @@
    counts (0 included), all classings.
    NOT expressible here (and not claimed): aliasing through `non_atomic`, data races of the non-atomic
    table fill, pointer provenance, `b.end.sub(1)` on an empty buffer, `alloc_zeroed` of size 0. *)
-From LLF Require Import Base Row Bitfield Lower Meta MetaProofs.
+From LLF Require Import Base Row Bitfield Lower Spec Upper UpperInvDef LowerMachine ConcInvDef ConcInv Meta MetaProofs
+  UpperPrims UpperMachine UpperConcInv AccessBoundsDef AccessBounds.
 
 (* row r of bitfield h: 8 bytes, inside the bitfield part of the lower buffer *)
 Theorem C18_row_in_bounds : forall g, wf_geom g -> forall fr h r,
@@ -89,3 +90,37 @@ Print Assumptions C18_lower_size_mono.
 Theorem C18_bitfield_stride : forall g, (9 <= hord g)%nat -> bitfield_bytes g = bitfield_bytes_as_computed g.
 Proof. exact bitfield_bytes_agree. Qed.
 Print Assumptions C18_bitfield_stride.
+
+(* ---------- every access of every reachable state of the machines (AccessBounds.v) ---------- *)
+(* M1 (lower allocator, LowerMachine.v): any number of threads, any schedule from a boot state.  Every event the step
+   function emits names an entry / a row whose indices are in range (`ev_idx_ok`: table index < ntab * THUGE; bitfield
+   < nbf, row < ROWS, an aligned 8/16/32/64-bit lane inside the row) and whose bytes lie inside the lower buffer of
+   `lower_size` bytes, in the right part, aligned to the access width; a narrow access stays inside the 8-byte word of
+   its row (`m1_ev_bytes_ok` = `row_bytes_ok` / `ent_bytes_ok`). *)
+Theorem C18_reachable_m1_access_in_bounds : forall g l held0 n sch t c e,
+  wf_geom g -> LowerInv g l -> HeldInit g l held0 ->
+  let s := mrun g sch (boot l held0 n) in
+  snd (mstep g s t c) = Some e ->
+  ev_idx_ok g (frames l) e /\ m1_ev_bytes_ok g (frames l) e.
+Proof. exact reachable_m1_access_in_bounds. Qed.
+Print Assumptions C18_reachable_m1_access_in_bounds.
+
+(* M2 (whole allocator, UpperMachine.v) under the hypotheses of conc_uinv: tree index < ntab, slot index < the slot count
+   of its class, lower accesses as M1 (`uev_idx_ok`); with the classing `cl` the local buffer was laid out with
+   (`classing_agrees`, established by LLFree::new: `llfree_new_classing_agrees`) the bytes of every event lie inside
+   trees_size / local_size / lower_size (`m2_ev_bytes_ok`). *)
+Theorem C18_reachable_m2_access_in_bounds : forall g policy u held0 n sch t c e cl,
+  wf_geom g -> pol_refl_match policy -> pol_demote_trans policy ->
+  UpperInv g policy (ustate_new u) -> HeldInit g (low u) held0 -> sched_valid g u sch ->
+  classing_agrees cl u ->
+  let s := urun g policy sch (uboot u held0 n) in
+  snd (ustep g policy s t c) = Some e ->
+  uev_idx_ok g (m2_up s) e /\ m2_ev_bytes_ok g (frames (low u)) cl e.
+Proof. exact reachable_m2_access_in_bounds. Qed.
+Print Assumptions C18_reachable_m2_access_in_bounds.
+
+(* the executable form the correspondence drivers evaluate on the accesses of the compiled code (ORACLE [C18]) is
+   equivalent to the index predicate *)
+Theorem C18_row_index_check : forall g fr h r off w, row_idx_okb g fr h r off w = true <-> row_idx_ok g fr h r off w.
+Proof. exact row_idx_okb_spec. Qed.
+Print Assumptions C18_row_index_check.
